@@ -11,7 +11,7 @@ PROP = 'C10'
 TOL = Fraction(1, 10 ** 10)
 
 
-def _install_stubs(env, n, kind, P0mode):
+def _install_stubs(env, n, kind, P0mode, unitary=False):
     """replace the kernels by fresh symbolic matrices; returns a dict with what was handed out"""
     Sc = env.R.schur
     rec = {'hh': [], 'gg': [], 'ev': 0, 'orig': {}}
@@ -33,7 +33,15 @@ def _install_stubs(env, n, kind, P0mode):
     def hh_stub(col, e1):
         k = len(rec['hh'])
         m = len(col)
-        W = env.qarr('w%d' % k, (m, m), kind)
+        if unitary:
+            # explicit-shift variants add the shift back after the sweep (H <- R Q + sigma I), so their
+            # similarity needs W W^H = I: W = I - 2 v v^T / v^T v, an arbitrary (rationally parametrised) reflector
+            v = [env.real('v%d_%d' % (k, i)) for i in range(m)]
+            vv = sum((x * x for x in v), 0)
+            env.assume(vv >= Fraction(1, 100), '|v|^2 >= 0.01')
+            W = cm.qmat_from_nested(env, [[[(1 if i == j else 0) - 2 * v[i] * v[j] / vv, 0, 0, 0] for j in range(m)] for i in range(m)])
+        else:
+            W = env.qarr('w%d' % k, (m, m), kind)
         rec['hh'].append((col, W))
         return W
 
@@ -86,18 +94,32 @@ def _run_variant(env, variant, A, iters):
     raise ValueError(variant)
 
 
+def _needs_unitary(variant):
+    return variant in ('pure:rayleigh', 'unified:rayleigh')
+
+
 def similarity(env, variant, n, iters, kind='real'):
     """with the kernels replaced by arbitrary symbolic matrices the update H <- M H M^H, Q <- Q M^H keeps
     T = Q^H A Q as a polynomial identity (no unitarity needed); entries of T that differ from Q^H A Q are
     exactly the ones zeroed by deflation, and those were small"""
     A = env.qarr('a', (n, n), lambda idx: kind if idx[0] <= idx[1] + 1 else 'zero')
     if not env.symbolic:
-        Q, T, diag = _run_variant(env, variant, A, max(iters, 1) * 50)
-        Qn, Tn, An = cm.as_nested(env, Q), cm.as_nested(env, T), cm.as_nested(env, A)
-        env.eq('Q^H Q = I', cm_matmul_nested(_herm_nested(Qn), Qn), cm.eye_nested(n), tol=1e-8)
-        env.eq('Q T Q^H = A', cm_matmul_nested(cm_matmul_nested(Qn, Tn), _herm_nested(Qn)), An, tol=1e-7)
+        # real kernels, real LAPACK: the property itself, with a tol-based bound, on the model input and on its
+        # Hermitian part (deflation decisions are most delicate for normal matrices); budgets 1 and 200
+        import numpy as np
+        U = env.R.utils
+        tolf = float(TOL)
+        for name, M in [('model input', A), ('Hermitian part of the model input', (A + U.quat_hermitian(A)) * 0.5 + np.diag(np.arange(n)).astype(float) * env.q(1, 0, 0, 0))]:
+            for budget in (max(iters, 1), 200):
+                Q, T, diag = _run_variant(env, variant, M, budget)
+                Qn, Tn, Mn = cm.as_nested(env, Q), cm.as_nested(env, T), cm.as_nested(env, M)
+                env.eq('Q^H Q = I (%s, budget %d)' % (name, budget), cm_matmul_nested(_herm_nested(Qn), Qn), cm.eye_nested(n), tol=1e-8)
+                R_ = cm_matmul_nested(cm_matmul_nested(Qn, Tn), _herm_nested(Qn))
+                err2 = sum(((a - b) ** 2 for r1, r2 in zip(R_, Mn) for e1, e2 in zip(r1, r2) for a, b in zip(e1, e2)), 0)
+                nrm2 = sum((a * a for r in Mn for e in r for a in e), 0)
+                env.le('||Q T Q^H - A||_F <= 1e3 tol max(1, ||A||_F) (%s, budget %d)' % (name, budget), err2, (1e3 * tolf) ** 2 * max(1.0, nrm2), slack=0.0, abs_slack=1e-22)
         return
-    rec = _install_stubs(env, n, kind, 'identity')
+    rec = _install_stubs(env, n, kind, 'identity', unitary=_needs_unitary(variant))
     try:
         Q, T, diag = _run_variant(env, variant, env.twist(A), iters)
     finally:
@@ -105,22 +127,27 @@ def similarity(env, variant, n, iters, kind='real'):
     env.holds('shapes', tuple(Q.shape) == (n, n) and tuple(T.shape) == (n, n))
     Qn, Tn, An = cm.as_nested(env, Q), cm.as_nested(env, T), cm.as_nested(env, A)
     S_ = cm_matmul_nested(cm_matmul_nested(_herm_nested(Qn), An), Qn)
-    f2 = sum((x * x for r in S_ for e in r for x in e), 0)
-    bound = (8 * TOL) ** 2 * (1 + 2 * f2)
+
+    def mod2(e):
+        return sum((x * x for x in e), 0)
+
+    def bound(i):
+        # every variant zeroes H[i,i-1] only if |h| <= c*tol*max(1, |h_{i-1,i-1}| + |h_ii| (+|h|)) with c <= 3,
+        # hence |h|^2 <= (8 tol)^2 (1 + 2|h_{i-1,i-1}|^2 + 2|h_ii|^2)
+        return (8 * TOL) ** 2 * (1 + 2 * mod2(Tn[i - 1][i - 1]) + 2 * mod2(Tn[i][i]))
     for i in range(n):
         for j in range(n):
-            d = [Tn[i][j][c] - S_[i][j][c] for c in range(4)]
-            if i > j:
+            if i == j + 1:
+                d = [Tn[i][j][c] - S_[i][j][c] for c in range(4)]
                 same = (d[0] == 0) & (d[1] == 0) & (d[2] == 0) & (d[3] == 0)
                 zeroed = (Tn[i][j][0] == 0) & (Tn[i][j][1] == 0) & (Tn[i][j][2] == 0) & (Tn[i][j][3] == 0)
-                small = sum((x * x for x in S_[i][j]), 0) <= bound
+                small = mod2(S_[i][j]) <= bound(i)
                 env.holds('T[%d,%d] = (Q^H A Q)[%d,%d], or it was deflated and was negligible' % (i, j, i, j), same | (zeroed & small))
             else:
-                env.eq('T = Q^H A Q on and above the diagonal', Tn[i][j], S_[i][j])
+                env.eq('T = Q^H A Q off the sub-diagonal', Tn[i][j], S_[i][j])
     if diag.get('converged'):
         for i in range(1, n):
-            env.le('converged flag: sub-diagonal entry (%d,%d) of T is below the tolerance scale' % (i, i - 1),
-                   sum((x * x for x in Tn[i][i - 1]), 0), bound)
+            env.le('converged flag: sub-diagonal entry (%d,%d) of T is below the tolerance scale' % (i, i - 1), mod2(Tn[i][i - 1]), bound(i))
 
 
 def composition(env, variant, n, kind='real'):
@@ -162,10 +189,11 @@ META = {
 def cells():
     out = []
     for v in VARIANTS:
-        for n, iters, tier in [(2, 1, 'quick'), (3, 1, 'quick'), (2, 2, 'thorough'), (3, 2, 'thorough')]:
+        n3q = False
+        for n, iters, tier in [(2, 1, 'quick'), (3, 1, 'quick' if n3q else 'thorough'), (2, 2, 'thorough'), (3, 2, 'thorough')]:
             out.append(Cell('similarity[%s,n=%d,iters=%d]' % (v, n, iters), 'c10:similarity', dict(variant=v, n=n, iters=iters),
-                            domain='a' if v.startswith('schur:') else 'z', tier=tier,
-                            timeout_s=1200 if tier == 'quick' else 2400, q_timeout_ms=5000, ob_timeout_ms=30000, max_paths=300,
+                            domain='a' if (v.startswith('schur:') or _needs_unitary(v)) else 'z', tier=tier,
+                            timeout_s=1200 if tier == 'quick' else 2400, q_timeout_ms=5000, ob_timeout_ms=5000 if tier == 'quick' else 60000, max_paths=300,
                             twin=(n == 2 and iters == 1 and v in ('unified:aed',)), twin_timeout_s=300,
                             bounds='A %dx%d upper Hessenberg real-axis symbolic; kernels = arbitrary symbolic matrices; %d outer iteration(s)' % (n, n, iters)))
         out.append(Cell('composition[%s,n=3]' % v, 'c10:composition', dict(variant=v, n=3), domain='z', tier='quick', timeout_s=600, twin=False,
